@@ -99,6 +99,43 @@ def pairs_job(args):
     return out
 
 
+def self_solution_count(n, adj):
+    rows0 = [(x, z) for x, z, _ in G.graph_state_gens(n, adj)]
+    cnt = 0
+    for layer in itertools.product(range(6), repeat=n):
+        if all(in_graph_group(n, adj, x, z) for x, z in G.apply_layer_unsigned(n, rows0, layer)):
+            cnt += 1
+            if cnt > 1:
+                break
+    return cnt
+
+
+def rigid_graphs(n):
+    """orbit representatives whose graph state has no non-trivial local-Clifford symmetry: every member of the class has exactly ONE layer onto the graph,
+    so completeness has to find each of the 6^n layers individually"""
+    import os, pickle
+    path = os.path.join(core.ROOT, ".cache", f"rigid{n}.pkl")
+    if os.path.exists(path):
+        return pickle.load(open(path, "rb"))
+    reps = G.orbit_table(n)[1]
+    out = [g for g in reps if self_solution_count(n, G.adj_from_id(n, g)) == 1]
+    os.makedirs(os.path.dirname(path), exist_ok=True)
+    pickle.dump(out, open(path, "wb"))
+    return out
+
+
+def rigid_job(args):
+    n, gid, layers = args
+    adj = G.adj_from_id(n, gid)
+    rows0 = [(x, z) for x, z, _ in G.graph_state_gens(n, adj)]
+    out = []
+    for layer in layers:
+        inv = [G.SIX.index((G.SIX[l][3], G.SIX[l][1], G.SIX[l][2], G.SIX[l][0])) for l in layer]
+        rows = G.apply_layer_unsigned(n, rows0, inv)          # the unique layer onto the graph is `layer`
+        out += [r for r in eval_pair(n, rows, gid, True) if r[0] in ("C16.ground.none_iff_no_layer", "C16.ground.noraise", "C16.ground.layer_has_effect")]
+    return [(f.replace("C16.ground.", "C16.ground.rigid_class."), ok, key, what, rp) for f, ok, key, what, rp in out]
+
+
 def build_ground(ctx):
     rnd = random.Random(ctx.seed + 16)
     exhaustive, bounded = [], []
@@ -178,6 +215,33 @@ def run(ctx: core.Ctx):
             ctx.record(fam, PROVED if ok else REFUTED, rp if fam.total < 2 else None)
             if not ok:
                 ctx.violate(fam, key, what, rp)
+    # classes without local symmetry: each of the 6^n members has exactly one layer onto the graph
+    rj, rtags = [], []
+    rnd = random.Random(ctx.seed + 161)
+    for n in (5, 6):
+        graphs = rigid_graphs(5) if n == 5 else [G.id_from_adj(6, G.adj_from_edges(6, [(i, (i + 1) % 6) for i in range(6)]))]
+        for gid in graphs[: (2 if ctx.quick else 6)] if n == 5 else graphs:
+            if n == 5 or not ctx.quick:
+                layers = list(itertools.product(range(6), repeat=n))
+                mode = "all"
+            else:
+                layers = [tuple([u] * n) for u in range(6)] + [tuple(u if q != p else v for q in range(n)) for u in range(6) for p in range(n) for v in range(6) if v != u]
+                layers += [tuple(rnd.randrange(6) for _ in range(n)) for _ in range(400)]
+                mode = "structured"
+            for ch in core.chunked(layers, 64):
+                rj.append((n, gid, ch))
+                rtags.append((n, mode))
+    for (n, mode), res in zip(rtags, core.pmap(rigid_job, rj, chunks=1)):
+        for famname, ok, key, what, rp in res:
+            exh = mode == "all"
+            fam = ctx.family(famname + f".n{n}" + ("" if exh else ".structured_layers"), GROUND if exh else BOUNDED, "native+oracle",
+                             "members of a class without local symmetry against their graph: the search must find the single existing layer")
+            fam.exhaustive = exh
+            fam.domain = f"{'ALL 6^' + str(n) if exh else 'uniform, one-deviation and seeded'} local-Clifford images of rigid graph states on {n} qubits"
+            ctx.record(fam, PROVED if ok else REFUTED, rp if fam.total < 2 else None)
+            if not ok:
+                ctx.violate(fam, key, what, rp)
+    ctx.extra["rigid_graphs_n5"] = rigid_graphs(5)
     ctx.extra["ground_time_s"] = round(time.time() - t, 2)
     ctx.extra["ground_cases"] = {"exhaustive": len(ex), "seeded": len(bd)}
     ctx.trust(*symrun.PYVC_TRUST)
